@@ -119,7 +119,7 @@ class Enc:
             codes = struct_codes(fmt)
             if len(codes) != len(arg.args) - 1:
                 return [("?", src(arg))]
-            return [("f", c, self.desc(a)) for c, a in zip(codes, arg.args[1:])]
+            return [(("raw", self.desc(a)) if c.endswith("s") else ("f", c, self.desc(a))) for c, a in zip(codes, arg.args[1:])]
         if isinstance(arg, ast.Call) and call_name(arg) == "_ord2bytes" and len(arg.args) == 1:
             return [("f", "B", self.desc(arg.args[0]))]
         if isinstance(arg, ast.Name):
@@ -189,6 +189,13 @@ class Dec:
         return len(self.toks) - 1
 
     def name_target(self, t, idx: int):
+        if self.toks[idx][0] == "raw":
+            if is_self_attr(t):
+                self.toks[idx][1] = t.attr
+                self.assigned.append(t.attr)
+            else:
+                self.toks[idx][1] = "?" + src(t)
+            return
         if is_self_attr(t):
             self.toks[idx][2] = t.attr
             self.assigned.append(t.attr)
@@ -216,6 +223,12 @@ class Dec:
 
     def unpack_tokens(self, call) -> Optional[List[int]]:
         fmt = _fmt_of(call.args[0], self.mod, self.cls, self.consts) if call.args else None
+        if fmt is None and call.args and isinstance(call.args[0], ast.BinOp) and isinstance(call.args[0].op, ast.Mod) \
+                and isinstance(call.args[0].left, ast.Constant) and isinstance(call.args[0].left.value, str):
+            # a format with computed repeat counts ("!4sB%ds" % n): the field kinds are what matters for the layout
+            fmt = call.args[0].left.value.replace("%d", "1").replace("%i", "1")
+            if "%" in fmt:
+                fmt = None
         if fmt is None or len(call.args) != 2:
             return None
         bs = self.bytes_source(call.args[1])
@@ -225,7 +238,7 @@ class Dec:
         if bs[0] == "pending":
             idx0 = self.pending.pop(bs[1])[0]
             # replace the raw placeholder by the unpacked fields, in place
-            new = [["f", c, None] for c in codes]
+            new = [(["raw", None, "fmt"] if c.endswith("s") else ["f", c, None]) for c in codes]
             self.toks[idx0:idx0 + 1] = new
             shift = len(new) - 1
             if shift:
@@ -235,7 +248,7 @@ class Dec:
                     if v > idx0:
                         self.local_tok[k] = v + shift
             return list(range(idx0, idx0 + len(new)))
-        return [self.emit(["f", c, None]) for c in codes]
+        return [self.emit(["raw", None, "fmt"] if c.endswith("s") else ["f", c, None]) for c in codes]
 
     def assign(self, targets, value) -> bool:
         """Returns True when the statement was understood (or irrelevant)."""
@@ -408,7 +421,7 @@ def _has_unknown(toks) -> Optional[str]:
             return str(t[1])
         if t[0] == "f" and (t[2] is None or str(t[2]).startswith("?")):
             return "unnamed field"
-        if t[0] == "raw" and t[1] is None:
+        if t[0] == "raw" and (t[1] is None or str(t[1]).startswith(("?", "expr:", "const:"))):
             return "unnamed raw field"
         for sub in t[2:]:
             if isinstance(sub, tuple) and sub and isinstance(sub[0], tuple):
@@ -485,144 +498,150 @@ def check_layouts(ctx, mod, consts):
     classes = [c for c in mod.tree.body if isinstance(c, ast.ClassDef) and ("encode" in methods(c) or "decode" in methods(c)) and "Interface" not in base_names(c)]
     n_cmp = 0
     for c in classes:
-        ms = methods(c)
-        q = f"{Q}.{c.name}"
-        if ("encode" in ms) != ("decode" in ms):
-            ctx.violation("layout/both-directions", q, f"{c.name} defines only {'encode' if 'encode' in ms else 'decode'}; the other direction is inherited and no longer matches")
-            continue
-        if c.name in LAYOUT_EXCEPTIONS:
-            ctx.ok("layout/agreement", q, "documented exception: " + LAYOUT_EXCEPTIONS[c.name])
-            continue
-        enc_body = ms["encode"].body
-        if c.name == "RRHeader":
-            enc_body = check_rdlength_backpatch(ctx, mod, c, ms["encode"], consts)
-        e = Enc(mod, c, ms["encode"], consts).block(enc_body)
-        d = Dec(mod, c, ms["decode"], consts)
-        d.block(ms["decode"].body)
-        dt = d.finish()
-        ue, ud = _has_unknown(e), _has_unknown(dt)
-        if ue or ud:
-            # shape outside the recognised idioms: fall back to the multiset of struct formats (never a false alarm on a refactor)
-            fe = _formats(ms["encode"], mod, c, consts, ("struct.pack", "pack"))
-            fd = _formats(ms["decode"], mod, c, consts, ("struct.unpack", "unpack"))
-            ctx.note(f"{c.name}: layout not fully recognised ({ue or ud}); compared struct format multisets instead")
-            ctx.check(fe == fd, "layout/format-multiset", q, f"encode packs {fe}, decode unpacks {fd}")
-            continue
-        n_cmp += 1
-        # strip writer-only constants? none expected outside Name
-        n = max(len(e), len(dt))
-        same = True
-        for i in range(n):
-            a = e[i] if i < len(e) else None
-            b = dt[i] if i < len(dt) else None
-            if a == b:
+        with ctx.section(f"layout {c.name}"):
+            ms = methods(c)
+            q = f"{Q}.{c.name}"
+            if ("encode" in ms) != ("decode" in ms):
+                ctx.violation("layout/both-directions", q, f"{c.name} defines only {'encode' if 'encode' in ms else 'decode'}; the other direction is inherited and no longer matches")
                 continue
-            if (c.name, i) in SLOT_EXCEPTIONS and a is not None and b is not None and a[0] == b[0] == "f" and a[1] == b[1]:
+            if c.name in LAYOUT_EXCEPTIONS:
+                ctx.ok("layout/agreement", q, "documented exception: " + LAYOUT_EXCEPTIONS[c.name])
                 continue
-            same = False
-            ctx.violation("layout/agreement", f"{q} | field {i + 1}",
-                          f"{c.name}.encode writes [{_show(e)}] but decode reads [{_show(dt)}]: position {i + 1} is "
-                          f"{_show([a]) if a else 'nothing'} on the wire and {_show([b]) if b else 'nothing'} in the reader")
-            break
-        if same:
-            ctx.ok("layout/agreement", q, _show(e))
+            enc_body = ms["encode"].body
+            if c.name == "RRHeader":
+                enc_body = check_rdlength_backpatch(ctx, mod, c, ms["encode"], consts)
+            e = Enc(mod, c, ms["encode"], consts).block(enc_body)
+            d = Dec(mod, c, ms["decode"], consts)
+            d.block(ms["decode"].body)
+            dt = d.finish()
+            ue, ud = _has_unknown(e), _has_unknown(dt)
+            if ue or ud:
+                # shape outside the recognised idioms: fall back to the multiset of struct formats (never a false alarm on a refactor)
+                fe = _formats(ms["encode"], mod, c, consts, ("struct.pack", "pack"))
+                fd = _formats(ms["decode"], mod, c, consts, ("struct.unpack", "unpack"))
+                if any(x.startswith("?") for x in fe + fd):
+                    _fail(f"{c.name}: layout not recognised ({ue or ud}) and a struct format is not constant: encode {fe}, decode {fd}")
+                ctx.note(f"{c.name}: layout not fully recognised ({ue or ud}); compared struct format multisets instead")
+                ctx.check(fe == fd, "layout/format-multiset", q, f"encode packs {fe}, decode unpacks {fd}")
+                continue
+            n_cmp += 1
+            # strip writer-only constants? none expected outside Name
+            n = max(len(e), len(dt))
+            same = True
+            for i in range(n):
+                a = e[i] if i < len(e) else None
+                b = dt[i] if i < len(dt) else None
+                if a == b:
+                    continue
+                if (c.name, i) in SLOT_EXCEPTIONS and a is not None and b is not None and a[0] == b[0] == "f" and a[1] == b[1]:
+                    continue
+                same = False
+                ctx.violation("layout/agreement", f"{q} | field {i + 1}",
+                              f"{c.name}.encode writes [{_show(e)}] but decode reads [{_show(dt)}]: position {i + 1} is "
+                              f"{_show([a]) if a else 'nothing'} on the wire and {_show([b]) if b else 'nothing'} in the reader")
+                break
+            if same:
+                ctx.ok("layout/agreement", q, _show(e))
     ctx.floor("layout/agreement", n_cmp, 18, "classes with a fully recognised layout")
 
     # fixed formats every independent decoder relies on (RFC 1035 3.2.1 / 4.1.2, RFC 6891 6.1.2)
-    allc = module_classes(mod)
-    for cname, attr, want, why in (("RRHeader", "fmt", "!HHIH", "TYPE(16) CLASS(16) TTL(32) RDLENGTH(16)"),
-                                   ("_OPTVariableOption", "_fmt", "!HH", "OPTION-CODE(16) OPTION-LENGTH(16)")):
-        cc = allc.get(cname) or _fail(cname + " vanished")
-        got = class_const(mod, cc, attr, consts)
-        ctx.check(got == want, "layout/spec-format", f"{Q}.{cname} | {attr}", f"{cname}.{attr} is {got!r}; the wire format is {want!r}: {why}")
-    qe = methods(allc["Query"])["encode"] if "Query" in allc else _fail("Query vanished")
-    qf = [f for c in ast.walk(qe) if _is_pack(c) and c.args for f in [_fmt_of(c.args[0], mod, allc["Query"], consts)]]
-    qcodes = [code for f in qf for code in (struct_codes(f) if f else ["?"])]
-    ctx.check(qcodes == ["H", "H"] and all(f and f[0] in "!>" for f in qf), "layout/spec-format", f"{Q}.Query | <format>",
-              f"a question is written with {qf}; the wire format is QTYPE(16) QCLASS(16) in network byte order")
+    with ctx.section("spec formats"):
+        allc = module_classes(mod)
+        for cname, attr, want, why in (("RRHeader", "fmt", "!HHIH", "TYPE(16) CLASS(16) TTL(32) RDLENGTH(16)"),
+                                       ("_OPTVariableOption", "_fmt", "!HH", "OPTION-CODE(16) OPTION-LENGTH(16)")):
+            cc = allc.get(cname) or _fail(cname + " vanished")
+            got = class_const(mod, cc, attr, consts)
+            ctx.check(got == want, "layout/spec-format", f"{Q}.{cname} | {attr}", f"{cname}.{attr} is {got!r}; the wire format is {want!r}: {why}")
+        qe = methods(allc["Query"])["encode"] if "Query" in allc else _fail("Query vanished")
+        qf = [f for c in ast.walk(qe) if _is_pack(c) and c.args for f in [_fmt_of(c.args[0], mod, allc["Query"], consts)]]
+        qcodes = [code for f in qf for code in (struct_codes(f) if f else ["?"])]
+        ctx.check(qcodes == ["H", "H"] and all(f and f[0] in "!>" for f in qf), "layout/spec-format", f"{Q}.Query | <format>",
+                  f"a question is written with {qf}; the wire format is QTYPE(16) QCLASS(16) in network byte order")
 
     # byte accounting inside length-delimited records
     for c in classes:
-        dec = methods(c).get("decode")
-        if dec is None or len(dec.args.args) < 3:
-            continue
-        lname = dec.args.args[2].arg
-        strio = dec.args.args[1].arg
-        q = f"{Q}.{c.name}.decode"
-        # (i) `readPrecisely(strio, length - K)`: K is the number of bytes read before it
-        fixed = 0
-        for st in dec.body:
-            reads = [x for x in ast.walk(st) if _is_read(x)]
-            for r in reads:
-                sz = r.args[1]
-                if isinstance(sz, ast.BinOp) and isinstance(sz.op, ast.Sub) and src(sz.left) == lname:
-                    try:
-                        k = const_eval(sz.right, consts)
-                    except NotConst:
-                        k = None
-                    ctx.check(fixed is not None and k == fixed, "layout/remainder-size", ctx.construct(q, r),
-                              f"the rest of the record is read as {src(sz)} bytes after {fixed} bytes of fixed fields: the field must take exactly rdlength - {fixed} bytes "
-                              "(else it eats into, or leaves bytes for, the next record)")
-                    fixed = None
-                elif fixed is not None:
-                    try:
-                        v = const_eval(sz, consts)
-                        fixed = fixed + v if isinstance(v, int) else None
-                    except NotConst:
-                        fixed = None
-            if any(isinstance(x, ast.Call) and call_attr(x) == "decode" for x in ast.walk(st)):
-                fixed = None
-        # (ii) `while soFar < length:` loops account for every byte they consume
-        for lp in [st for st in dec.body if isinstance(st, ast.While)]:
-            t = lp.test
-            if not (isinstance(t, ast.Compare) and len(t.ops) == 1 and isinstance(t.ops[0], ast.Lt) and isinstance(t.left, ast.Name) and src(t.comparators[0]) == lname):
+        with ctx.section(f"byte accounting {c.name}"):
+            dec = methods(c).get("decode")
+            if dec is None or len(dec.args.args) < 3:
                 continue
-            ctr = t.left.id
-            incs = [st for st in lp.body if isinstance(st, ast.AugAssign) and isinstance(st.op, ast.Add) and isinstance(st.target, ast.Name) and st.target.id == ctr]
-            sizes = [src(r.args[1]) for st in lp.body for r in ast.walk(st) if _is_read(r)]
-            total = ast.parse(" + ".join(sizes) or "0", mode="eval").body
-            ctx.check(len(incs) == 1 and lin_equal(incs[0].value, total, {}, consts), "layout/loop-accounting", f"{q} | {ctr}",
-                      f"each iteration reads {' + '.join(sizes)} bytes but advances `{ctr}` by {src(incs[0].value) if incs else 'nothing'}: the loop runs past (or stops short of) rdlength")
-            init = [st for st in dec.body if isinstance(st, ast.Assign) and any(isinstance(x, ast.Name) and x.id == ctr for x in st.targets)]
-            ctx.check(len(init) == 1 and isinstance(init[0].value, ast.Constant) and init[0].value.value == 0, "layout/loop-accounting", f"{q} | {ctr} = 0", f"`{ctr}` does not start at 0")
+            lname = dec.args.args[2].arg
+            strio = dec.args.args[1].arg
+            q = f"{Q}.{c.name}.decode"
+            # (i) `readPrecisely(strio, length - K)`: K is the number of bytes read before it
+            fixed = 0
+            for st in dec.body:
+                reads = [x for x in ast.walk(st) if _is_read(x)]
+                for r in reads:
+                    sz = r.args[1]
+                    if isinstance(sz, ast.BinOp) and isinstance(sz.op, ast.Sub) and src(sz.left) == lname:
+                        try:
+                            k = const_eval(sz.right, consts)
+                        except NotConst:
+                            k = None
+                        ctx.check(fixed is not None and k == fixed, "layout/remainder-size", ctx.construct(q, r),
+                                  f"the rest of the record is read as {src(sz)} bytes after {fixed} bytes of fixed fields: the field must take exactly rdlength - {fixed} bytes "
+                                  "(else it eats into, or leaves bytes for, the next record)")
+                        fixed = None
+                    elif fixed is not None:
+                        try:
+                            v = const_eval(sz, consts)
+                            fixed = fixed + v if isinstance(v, int) else None
+                        except NotConst:
+                            fixed = None
+                if any(isinstance(x, ast.Call) and call_attr(x) == "decode" for x in ast.walk(st)):
+                    fixed = None
+            # (ii) `while soFar < length:` loops account for every byte they consume
+            for lp in [st for st in dec.body if isinstance(st, ast.While)]:
+                t = lp.test
+                if not (isinstance(t, ast.Compare) and len(t.ops) == 1 and isinstance(t.ops[0], ast.Lt) and isinstance(t.left, ast.Name) and src(t.comparators[0]) == lname):
+                    continue
+                ctr = t.left.id
+                incs = [st for st in lp.body if isinstance(st, ast.AugAssign) and isinstance(st.op, ast.Add) and isinstance(st.target, ast.Name) and st.target.id == ctr]
+                sizes = [src(r.args[1]) for st in lp.body for r in ast.walk(st) if _is_read(r)]
+                total = ast.parse(" + ".join(sizes) or "0", mode="eval").body
+                ctx.check(len(incs) == 1 and lin_equal(incs[0].value, total, {}, consts), "layout/loop-accounting", f"{q} | {ctr}",
+                          f"each iteration reads {' + '.join(sizes)} bytes but advances `{ctr}` by {src(incs[0].value) if incs else 'nothing'}: the loop runs past (or stops short of) rdlength")
+                init = [st for st in dec.body if isinstance(st, ast.Assign) and any(isinstance(x, ast.Name) and x.id == ctr for x in st.targets)]
+                ctx.check(len(init) == 1 and isinstance(init[0].value, ast.Constant) and init[0].value.value == 0, "layout/loop-accounting", f"{q} | {ctr} = 0", f"`{ctr}` does not start at 0")
 
     # Record_TSIG: total fixed sizes agree (48-bit time)
-    cls = module_classes(mod).get("Record_TSIG") or _fail("Record_TSIG vanished")
-    ms = methods(cls)
-    enc_sizes = []
-    for cc in ast.walk(ms["encode"]):
-        if _is_pack(cc):
-            f = _fmt_of(cc.args[0], mod, cls, consts)
-            par = getattr(cc, "_parent", None)
-            size = struct.calcsize(f) if f else None
-            if isinstance(par, ast.Subscript) and isinstance(par.slice, ast.Slice) and par.slice.lower is not None and par.slice.upper is None:
+    with ctx.section("Record_TSIG"):
+        cls = module_classes(mod).get("Record_TSIG") or _fail("Record_TSIG vanished")
+        ms = methods(cls)
+        enc_sizes = []
+        for cc in ast.walk(ms["encode"]):
+            if _is_pack(cc):
+                f = _fmt_of(cc.args[0], mod, cls, consts)
+                par = getattr(cc, "_parent", None)
+                size = struct.calcsize(f) if f else None
+                if isinstance(par, ast.Subscript) and isinstance(par.slice, ast.Slice) and par.slice.lower is not None and par.slice.upper is None:
+                    try:
+                        size -= const_eval(par.slice.lower, consts)
+                    except NotConst:
+                        size = None
+                enc_sizes.append(size)
+        dec_sizes = []
+        for cc in ast.walk(ms["decode"]):
+            if _is_read(cc):
                 try:
-                    size -= const_eval(par.slice.lower, consts)
+                    dec_sizes.append(const_eval(cc.args[1], consts))
                 except NotConst:
-                    size = None
-            enc_sizes.append(size)
-    dec_sizes = []
-    for cc in ast.walk(ms["decode"]):
-        if _is_read(cc):
-            try:
-                dec_sizes.append(const_eval(cc.args[1], consts))
-            except NotConst:
-                pass
-    ctx.check(None not in enc_sizes and sum(enc_sizes) == sum(dec_sizes) == 16, "layout/tsig-fixed-part", f"{Q}.Record_TSIG",
-              f"fixed-size parts: encode writes {enc_sizes} bytes, decode reads {dec_sizes} bytes (6-byte time + fudge + MAC size, then id + error + other size)")
-    for cc in ast.walk(ms["decode"]):
-        if _is_unpack(cc):
-            f = _fmt_of(cc.args[0], mod, cls, consts)
-            arg = cc.args[1]
-            pad = 0
-            rd = None
-            for x in ([arg.left, arg.right] if isinstance(arg, ast.BinOp) else [arg]):
-                if isinstance(x, ast.Constant) and isinstance(x.value, bytes):
-                    pad += len(x.value)
-                elif _is_read(x):
-                    rd = const_eval(x.args[1], consts)
-            ctx.check(f is not None and rd is not None and struct.calcsize(f) == pad + rd, "layout/tsig-fixed-part", f"{Q}.Record_TSIG.decode | {src(cc.args[0])}",
-                      f"unpack({f!r}) needs {struct.calcsize(f) if f else '?'} bytes, it is given {pad}+{rd}")
+                    pass
+        ctx.check(None not in enc_sizes and sum(enc_sizes) == sum(dec_sizes) == 16, "layout/tsig-fixed-part", f"{Q}.Record_TSIG",
+                  f"fixed-size parts: encode writes {enc_sizes} bytes, decode reads {dec_sizes} bytes (6-byte time + fudge + MAC size, then id + error + other size)")
+        for cc in ast.walk(ms["decode"]):
+            if _is_unpack(cc):
+                f = _fmt_of(cc.args[0], mod, cls, consts)
+                arg = cc.args[1]
+                pad = 0
+                rd = None
+                for x in ([arg.left, arg.right] if isinstance(arg, ast.BinOp) else [arg]):
+                    if isinstance(x, ast.Constant) and isinstance(x.value, bytes):
+                        pad += len(x.value)
+                    elif _is_read(x):
+                        rd = const_eval(x.args[1], consts)
+                ctx.check(f is not None and rd is not None and struct.calcsize(f) == pad + rd, "layout/tsig-fixed-part", f"{Q}.Record_TSIG.decode | {src(cc.args[0])}",
+                          f"unpack({f!r}) needs {struct.calcsize(f) if f else '?'} bytes, it is given {pad}+{rd}")
 
 
 # ---------------------------------------------------------------------------------------------------------------
@@ -647,6 +666,7 @@ def check_name_limits(ctx, mod, consts):
             ptr_writes.append((n, inner))
     ctx.need(len_writes, "label length write in Name.encode")
     ctx.need(ptr_writes, "compression pointer write in Name.encode")
+    all_label_guarded = True
     for n, v in len_writes:
         vt = src(v)
         ok = False
@@ -657,6 +677,7 @@ def check_name_limits(ctx, mod, consts):
                 ok = True
             if fm is not None and f"len(label)" in dict(fm[0]) and dict(fm[0])["len(label)"] < 0 and -fm[1] <= 63:
                 ok = True
+        all_label_guarded = all_label_guarded and ok
         ctx.check(ok, "name/label-length-limit", ctx.construct(q, g.node(n).ast),
                   "Name(b'a'*64 + b'.com').encode() writes the length byte 0x40 and a 200-byte label writes 0xc8: the two top bits of that byte mean "
                   "'compression pointer' to every reader, so the name is not refused and does not decode to itself (labels are limited to 63 bytes)")
@@ -716,6 +737,127 @@ def check_name_limits(ctx, mod, consts):
         except NotConst:
             okt = False
     ctx.check(okt, "name/pointer-form", Q + ".Name.decode | <pointer test>", "the decoder does not treat exactly the bytes 0xC0..0xFF as the first byte of a compression pointer")
+    return all_label_guarded
+
+
+def check_name_reader(ctx, mod, consts, encoder_limits_labels: bool):
+    """Writer/reader agreement on compression: Name.encode chains suffix pointers without any bound (h2.h1.example.com after
+    h1.example.com after example.com adds one hop per nesting level), so the only input Name.decode may refuse while following
+    pointers is a true cycle - a target already visited in this name.  Any other rejection is a condition the writer does not
+    respect, i.e. Twisted would refuse its own valid output."""
+    f = ctx.func(DNS, "Name.decode")
+    g = ctx.cfg(f)
+    q = Q + ".Name.decode"
+    defs = single_defs(f)
+    seeks = g.find(lambda x: isinstance(x, ast.Call) and call_attr(x) == "seek")
+    loops = [x for x in ast.walk(f) if isinstance(x, ast.While)]
+    if len(loops) != 1:
+        _fail("Name.decode: the label loop was not found exactly once")
+    loop = loops[0]
+    heads = g.ids(lambda n: n.kind == "join" and n.ast is loop)
+    jump = [s_ for s_ in seeks if g.path([s_], heads, edge_ok=lambda a, b, l: l != "exc")]
+    if not jump:
+        _fail("Name.decode: no seek() that continues the loop (pointer following) was found")
+    targets = set()
+    for s_ in jump:
+        call = next(x for x in walk_local(g.node(s_).ast) if isinstance(x, ast.Call) and call_attr(x) == "seek")
+        targets.add(src(call.args[0]) if call.args else "?")
+    if len(targets) != 1:
+        _fail(f"Name.decode: several pointer targets {sorted(targets)}")
+    target = next(iter(targets))
+    # the length-byte variable and the pointer test
+    ptests = []
+    for t in g.ids(lambda n: n.kind == "test"):
+        te = g.node(t).ast
+        names = {x.id for x in ast.walk(te) if isinstance(x, ast.Name)}
+        if len(names) != 1:
+            continue
+        nm = next(iter(names))
+        try:
+            tv = [bool(const_eval(te, {nm: b})) for b in range(256)]
+        except (NotConst, TypeError):
+            continue
+        if tv == [b >= 0xC0 for b in range(256)]:
+            ptests.append((t, "T", nm))
+        elif tv == [b < 0xC0 for b in range(256)]:
+            ptests.append((t, "F", nm))
+    if len(ptests) != 1:
+        _fail("Name.decode: the test selecting the compression-pointer branch (first byte >= 0xC0) was not found exactly once")
+    pt, plab, lvar = ptests[0]
+
+    def membership(n: int):
+        """(container, ) if node n is dominated by `target in C` being false."""
+        for t, lab in g.edge_guards(n):
+            te = g.node(t).ast
+            if isinstance(te, ast.Name) and te.id in defs:
+                te = defs[te.id]
+            if isinstance(te, ast.Compare) and len(te.ops) == 1 and src(te.left) == target:
+                if (isinstance(te.ops[0], ast.In) and lab == "T") or (isinstance(te.ops[0], ast.NotIn) and lab == "F"):
+                    return src(te.comparators[0])
+        return None
+
+    raises = g.ids(lambda n: n.kind == "stmt" and isinstance(n.ast, ast.Raise))
+    n_sites = 0
+    containers = set()
+    for r in raises:
+        n_sites += 1
+        cons = ctx.construct(q, g.node(r).ast)
+        in_branch = any(t == pt and lab == plab for t, lab in g.edge_guards(r))
+        cont = membership(r)
+        if cont is not None:
+            containers.add(cont)
+            ctx.ok("name/reader-accepts-writer", cons, f"only when `{target}` was already visited in this name (a true cycle, which the writer never produces)")
+            continue
+        # a rejection of reserved label types (length byte 64..191) is tolerated once the writer refuses such labels itself
+        gl = [(g.node(t).ast, lab) for t, lab in g.edge_guards(r)]
+        only_reserved = False
+        for te, lab in gl:
+            names = {x.id for x in ast.walk(te) if isinstance(x, ast.Name)}
+            if names == {lvar}:
+                try:
+                    rej = [b for b in range(256) if bool(const_eval(te, {lvar: b})) == (lab == "T")]
+                except (NotConst, TypeError):
+                    continue
+                if rej and min(rej) >= 64 and max(rej) < 0xC0:
+                    only_reserved = True
+        if only_reserved and encoder_limits_labels and not in_branch:
+            ctx.ok("name/reader-accepts-writer", cons, "length bytes 64..191 only; the writer refuses labels longer than 63 bytes")
+            continue
+        conds = " and ".join(f"{'' if lab == 'T' else 'not '}({src(te)})" for te, lab in gl if not (isinstance(te, ast.Constant)))
+        ctx.violation("name/reader-accepts-writer", cons,
+                      f"Name.decode refuses a name when {conds or 'this point is reached'}: Name.encode enforces no such limit - it chains suffix pointers "
+                      "(example.com, h1.example.com, h2.h1.example.com, ... one more hop per nesting level) and writes names of any length - so a message Twisted "
+                      "itself encoded is rejected on decoding; while following pointers only a target already visited in the same name (a real cycle) may be refused")
+    ctx.floor("name/reader-accepts-writer", n_sites, 1, "raise sites in Name.decode")
+    # the pointer branch always follows the pointer (no quiet give-up)
+    tsucc = [d for d, l in g.succ[pt] if l == plab]
+    ok_raises = [r for r in raises if membership(r) is not None]
+    quiet = g.path([x for x in tsucc if x not in jump and x not in ok_raises], [g.exit] + heads, avoid=set(jump) | set(ok_raises), edge_ok=lambda a, b, l: l != "exc")
+    ctx.check(quiet is None, "name/reader-accepts-writer", q + " | <pointer always followed>",
+              "a compression pointer can be skipped or end the name without being followed: the suffix it refers to is lost", witness=g.describe(quiet))
+    # the visited container only ever receives the offsets jumped to
+    for cont in sorted(containers):
+        bad = []
+        inits = 0
+        body_ids = {id(x) for x in ast.walk(loop)}
+        for st in ast.walk(f):
+            if isinstance(st, (ast.Assign, ast.AnnAssign, ast.AugAssign)) and any(isinstance(x, ast.Name) and x.id == cont and isinstance(x.ctx, ast.Store) for x in ast.walk(st)):
+                v = getattr(st, "value", None)
+                empty = isinstance(v, (ast.List, ast.Set, ast.Tuple, ast.Dict)) and not getattr(v, "elts", getattr(v, "keys", None)) or \
+                    (isinstance(v, ast.Call) and call_name(v) in ("set", "list", "dict") and not v.args)
+                if isinstance(st, ast.Assign) and empty and id(st) not in body_ids:
+                    inits += 1
+                else:
+                    bad.append(src(st))
+            if isinstance(st, ast.Call) and isinstance(st.func, ast.Attribute) and src(st.func.value) == cont:
+                if st.func.attr in ("add", "append") and [src(a) for a in st.args] == [target]:
+                    continue
+                if st.func.attr in ("__contains__", "count", "index", "copy"):
+                    continue
+                bad.append(src(st))
+        ctx.check(inits == 1 and not bad, "name/reader-accepts-writer", q + f" | {cont}",
+                  f"`{cont}` must start empty before the loop and only ever receive the offsets jumped to ({cont}.add({target})); found: {bad or 'no single empty initialisation'} - "
+                  "otherwise an offset that was never visited can be taken for a cycle")
 
 
 _HEADER_BITS = {  # attribute -> (byte index 3|4, shift, width)   RFC 1035 4.1.1, RFC 2535 6.1
@@ -1043,59 +1185,69 @@ def check_registry(ctx, mod, consts):
 
 def check_compare_attributes(ctx, mod, consts):
     for c in [c for c in mod.tree.body if isinstance(c, ast.ClassDef) and "decode" in methods(c)]:
-        ca = mro_lookup(mod, c, "compareAttributes")
-        if ca is None:
-            continue  # Charstr / Name / Query define __eq__ themselves
-        try:
-            attrs = list(const_eval(ca[1], consts))
-        except NotConst:
-            _fail(f"{c.name}.compareAttributes is not a literal")
-        d = Dec(mod, c, methods(c)["decode"], consts)
-        dec = methods(c)["decode"]
-        assigned = set()
-        inplace = set()
-        for st in ast.walk(dec):
-            if isinstance(st, ast.Assign):
-                for t in st.targets:
-                    for e in (t.elts if isinstance(t, (ast.Tuple, ast.List)) else [t]):
-                        if is_self_attr(e):
-                            assigned.add(e.attr)
-            if isinstance(st, ast.Call) and call_attr(st) in ("decode", "append") and is_self_attr(st.func.value):
-                inplace.add(st.func.value.attr)
-            if isinstance(st, ast.Call) and call_name(st) == "setattr" and st.args and src(st.args[0]) == "self":
-                inplace.add("*")
-        q = f"{Q}.{c.name}"
-        for a in sorted(assigned):
-            if (c.name, a) in NOT_COMPARED:
-                ctx.ok("equality/decoded-fields-compared", f"{q} | {a}", "documented exception: " + NOT_COMPARED[(c.name, a)])
+        with ctx.section(f"compareAttributes {c.name}"):
+            ca = mro_lookup(mod, c, "compareAttributes")
+            if ca is None:
+                continue  # Charstr / Name / Query define __eq__ themselves
+            try:
+                attrs = list(const_eval(ca[1], consts))
+            except NotConst:
+                _fail(f"{c.name}.compareAttributes is not a literal")
+            d = Dec(mod, c, methods(c)["decode"], consts)
+            dec = methods(c)["decode"]
+            assigned = set()
+            inplace = set()
+            for st in ast.walk(dec):
+                if isinstance(st, ast.Assign):
+                    for t in st.targets:
+                        for e in (t.elts if isinstance(t, (ast.Tuple, ast.List)) else [t]):
+                            if is_self_attr(e):
+                                assigned.add(e.attr)
+                if isinstance(st, ast.Call) and call_attr(st) in ("decode", "append") and is_self_attr(st.func.value):
+                    inplace.add(st.func.value.attr)
+                if isinstance(st, ast.Call) and call_name(st) == "setattr" and st.args and src(st.args[0]) == "self":
+                    inplace.add("*")
+            q = f"{Q}.{c.name}"
+            for a in sorted(assigned):
+                if (c.name, a) in NOT_COMPARED:
+                    ctx.ok("equality/decoded-fields-compared", f"{q} | {a}", "documented exception: " + NOT_COMPARED[(c.name, a)])
+                    continue
+                ctx.check(a in attrs, "equality/decoded-fields-compared", f"{q} | {a}",
+                          f"{c.name}.decode sets self.{a} but compareAttributes {tuple(attrs)} ignores it: two records differing only there compare equal "
+                          "(a round trip would not notice a mangled field)")
+            if "*" in inplace:
                 continue
-            ctx.check(a in attrs, "equality/decoded-fields-compared", f"{q} | {a}",
-                      f"{c.name}.decode sets self.{a} but compareAttributes {tuple(attrs)} ignores it: two records differing only there compare equal "
-                      "(a round trip would not notice a mangled field)")
-        if "*" in inplace:
-            continue
-        for a in attrs:
-            if a in assigned or a in inplace:
-                ctx.ok("equality/compared-fields-decoded", f"{q} | {a}")
-                continue
-            if a in NOT_DECODED or (c.name, a) in NOT_DECODED:
-                ctx.ok("equality/compared-fields-decoded", f"{q} | {a}", "documented exception: " + NOT_DECODED.get(a, NOT_DECODED.get((c.name, a), "")))
-                continue
-            ctx.violation("equality/compared-fields-decoded", f"{q} | {a}",
-                          f"{c.name} compares `{a}` but decode never sets it: a decoded record keeps the constructor default and differs from the original")
+            for a in attrs:
+                if a in assigned or a in inplace:
+                    ctx.ok("equality/compared-fields-decoded", f"{q} | {a}")
+                    continue
+                if a in NOT_DECODED or (c.name, a) in NOT_DECODED:
+                    ctx.ok("equality/compared-fields-decoded", f"{q} | {a}", "documented exception: " + NOT_DECODED.get(a, NOT_DECODED.get((c.name, a), "")))
+                    continue
+                ctx.violation("equality/compared-fields-decoded", f"{q} | {a}",
+                              f"{c.name} compares `{a}` but decode never sets it: a decoded record keeps the constructor default and differs from the original")
 
 
 def check(ctx):
     mod = ctx.mod(DNS)
     consts = module_consts(mod)
-    check_layouts(ctx, mod, consts)
-    check_name_limits(ctx, mod, consts)
-    check_header(ctx, mod, consts)
-    check_opt(ctx, mod, consts)
-    check_edns(ctx, mod, consts)
-    check_truncation(ctx, mod, consts)
-    check_registry(ctx, mod, consts)
-    check_compare_attributes(ctx, mod, consts)
+    check_layouts(ctx, mod, consts)          # one section per class inside
+    label_guard = False
+    with ctx.section("Name.encode limits"):
+        label_guard = check_name_limits(ctx, mod, consts)
+    with ctx.section("Name.decode accepts what Name.encode writes"):
+        check_name_reader(ctx, mod, consts, label_guard)
+    with ctx.section("Message header"):
+        check_header(ctx, mod, consts)
+    with ctx.section("OPT header"):
+        check_opt(ctx, mod, consts)
+    with ctx.section("EDNS mapping"):
+        check_edns(ctx, mod, consts)
+    with ctx.section("truncation"):
+        check_truncation(ctx, mod, consts)
+    with ctx.section("registry"):
+        check_registry(ctx, mod, consts)
+    check_compare_attributes(ctx, mod, consts)   # one section per class inside
 
 
 MUTANTS = [
@@ -1133,6 +1285,18 @@ MUTANTS = [
     Mutant("second-unguarded-label-writer", DNS, "            strio.write(_ord2bytes(ind))\n            strio.write(label)\n        strio.write(b\"\\x00\")\n",
            "            strio.write(_ord2bytes(ind))\n            strio.write(label)\n        if self.name.endswith(b\".\"):\n            strio.write(_ord2bytes(len(self.name)))\n        strio.write(b\"\\x00\")\n",
            expect_rule="name/label-length-limit"),
+    Mutant("pointer-hops-capped", DNS, "        visited = set()\n        self.name = b\"\"\n", "        hops = 0\n        self.name = b\"\"\n",
+           more=[(DNS, "                if new_off in visited:\n                    raise ValueError(\"Compression loop in encoded name\")\n                visited.add(new_off)\n",
+                  "                hops += 1\n                if hops > 16:\n                    raise ValueError(\"Compression loop in encoded name\")\n")],
+           expect_rule="name/reader-accepts-writer"),
+    Mutant("decoded-name-length-capped", DNS, "            label = readPrecisely(strio, l)\n            if self.name == b\"\":\n",
+           "            label = readPrecisely(strio, l)\n            if len(self.name) + l > 128:\n                raise ValueError(\"name too long\")\n            if self.name == b\"\":\n",
+           expect_rule="name/reader-accepts-writer"),
+    Mutant("visited-also-records-current-position", DNS, "                visited.add(new_off)\n", "                visited.add(new_off)\n                visited.add(strio.tell())\n",
+           expect_rule="name/reader-accepts-writer"),
+    Mutant("forward-pointer-ends-name-quietly", DNS, "                if off == 0:\n                    off = strio.tell()\n                strio.seek(new_off)\n",
+           "                if off == 0:\n                    off = strio.tell()\n                if new_off >= off:\n                    return\n                strio.seek(new_off)\n",
+           expect_rule="name/reader-accepts-writer"),
     Mutant("pointer-marker", DNS, '                    strio.write(struct.pack("!H", 0xC000 | compDict[name]))\n', '                    strio.write(struct.pack("!H", 0x8000 | compDict[name]))\n', expect_rule="name/pointer-form"),
     Mutant("offset-without-header", DNS, "                    compDict[name] = strio.tell() + Message.headerSize\n", "                    compDict[name] = strio.tell()\n", expect_rule="name/pointer-form"),
 ]
@@ -1144,5 +1308,12 @@ SILENT = [
     Silent("truncation-flipped-comparison", DNS, "        if self.maxSize and size > self.maxSize:\n", "        if self.maxSize and not (size <= self.maxSize):\n"),
     Silent("f32-repaired", DNS, "            strio.write(_ord2bytes(ind))\n            strio.write(label)\n", "            if ind > 63:\n                raise ValueError(\"label too long\")\n            strio.write(_ord2bytes(ind))\n            strio.write(label)\n",
            more=[(DNS, "                if name in compDict:\n", "                if name in compDict and compDict[name] < 0x4000:\n")]),
+    Silent("visited-as-list-renamed", DNS, "        visited = set()\n        self.name = b\"\"\n", "        seenOffsets = []\n        self.name = b\"\"\n",
+           more=[(DNS, "                if new_off in visited:\n                    raise ValueError(\"Compression loop in encoded name\")\n                visited.add(new_off)\n",
+                  "                if new_off in seenOffsets:\n                    raise ValueError(\"Compression loop in encoded name\")\n                seenOffsets.append(new_off)\n")]),
+    Silent("wks-decode-one-unpack-guarded", DNS, "        self.address = readPrecisely(strio, 4)\n        self.protocol = struct.unpack(\"!B\", readPrecisely(strio, 1))[0]\n        self.map = readPrecisely(strio, length - 5)\n",
+           "        if length < 5:\n            raise EOFError\n        r = struct.unpack(\"!4sB%ds\" % (length - 5,), readPrecisely(strio, length))\n        self.address, self.protocol, self.map = r\n",
+           more=[(DNS, "        strio.write(self.address)\n        strio.write(struct.pack(\"!B\", self.protocol))\n        strio.write(self.map)\n",
+                  "        strio.write(struct.pack(\"!4sB\", self.address, self.protocol))\n        strio.write(self.map)\n")]),
     Silent("header-flags-with-shifts-reordered", DNS, "            ((self.answer & 1) << 7)\n            | ((self.opCode & 0xF) << 3)\n", "            ((self.opCode & 0xF) << 3)\n            | ((self.answer & 1) << 7)\n"),
 ]
